@@ -117,6 +117,12 @@ def run(rep, build, tier, seed):
                                                                 dict(indent="random", blank_max=2, comments=True))
     special = b"/* multi\n   line\n comment */\n#define M(a) \\\n  do { a; } \\\n  while (0)\nint f(void)\n{\n\tchar *s = \"x\"; // c1 \\\n continued\n\treturn 0;\n}\n/* *INDENT-OFF* */\n  int   keep ;\n/* *INDENT-ON* */\nint y;\n"
     base_cases.append(rc.Case("special", "C", "indent_columns=4\n", special))
+    # continued directives whose text is kept as one body chunk (#pragma, #warning, unknown directives; every #define with
+    # pp_ignore_define_body): the line break behind the backslash is looked for inside the body scanner
+    ppc = (b"#pragma omp parallel for \\\n    schedule(static)\nvoid f(void)\n{\n#pragma unroll \\\n  4\n\tint a;\n}\n#warning first \\\n  second\n"
+           b"#define M(a) \\\n  do { a; } \\\n  while (0)\n#region r \\\n  x\n#endregion\nint y;\n")
+    base_cases.insert(0, rc.Case("pp-body-cont", "C", "indent_columns=4\n", ppc))
+    base_cases.insert(1, rc.Case("pp-body-cont-ignore", "C", "indent_columns=4\npp_ignore_define_body=true\n", ppc))
     # block comments in every lead-character style: the comment writers look at the characters behind the first line break
     # (two lead characters, one, none, an empty second line), which is where a terminator can be taken for text
     for i in range(4 if tier == "quick" else 80):
